@@ -305,7 +305,7 @@ func runIdentity(w *core.Worker, c Case) {
 func TestProp(t *testing.T) {
 	r := core.Start(t, "C04")
 	defer r.Finish()
-	r.Rule("cases = operation sequences on bstree.BsTree[int,int] (Upsert with a fresh value per step / Delete / Get) checked against a map model: every return value, and Size + Get of every probe key + the full Traverse sequence (plain, and again with a second Traverse started from inside the callback) after the last step (systematic sweep: every shorter sequence is its own case) or after every step (random sequences); a quarter of the cases use a comparator that orders keys by k/3 only (distinct keys equivalent under it: the tree is then a map from classes to values); non-trivial = the sequence overwrote a present key or deleted a present key; bst-identity-values: BsTree[int,*int], every Upsert a fresh pointer with pointee in {0,1}, Get of every key and Traverse must return the pointer upserted last; bst-bulk: 129-5000 keys loaded in sorted/reversed/shuffled order, then three rounds of deleting a fifth of the keys and re-inserting, with Size, the complete Traverse sequence (twice) and 64 random Gets after each phase; distinct by hash of (comparator, ops)")
+	r.Rule("cases = operation sequences on bstree.BsTree[int,int] (Upsert with a fresh value per step / Delete / Get) checked against a map model: every return value, and Size + Get of every probe key + the full Traverse sequence (plain, and again with a second Traverse started from inside the callback) after the last step (systematic sweep: every shorter sequence is its own case) or after every step (random sequences; a third of them without the extra per-step lookups, so that nothing but the script's own Gets touches the tree between mutations); a quarter of the cases use a comparator that orders keys by k/3 only (distinct keys equivalent under it: the tree is then a map from classes to values); non-trivial = the sequence overwrote a present key or deleted a present key; bst-identity-values: BsTree[int,*int], every Upsert a fresh pointer with pointee in {0,1}, Get of every key and Traverse must return the pointer upserted last; bst-bulk: 129-5000 keys loaded in sorted/reversed/shuffled order, then three rounds of deleting a fifth of the keys and re-inserting, with Size, the complete Traverse sequence (twice) and 64 random Gets after each phase; distinct by hash of (comparator, ops)")
 
 	L := r.Pick(6, 7)
 	var alpha []Op
@@ -361,7 +361,10 @@ func TestProp(t *testing.T) {
 					ops = append(ops, Op{"G", k})
 				}
 			}
-			emit(Case{Desc: rng.Bool(), Coarse: i%4 == 3, Full: true, Ops: ops, Keys: keys})
+			// a third of the cases is observed only through its own operations (every Get result is
+			// still compared with the model) and once at the end: the monitor's extra lookups after
+			// every step would otherwise refresh whatever the tree remembers between operations
+			emit(Case{Desc: rng.Bool(), Coarse: i%4 == 3, Full: i%3 != 1, Ops: ops, Keys: keys})
 		}
 	}, run)
 
